@@ -246,6 +246,11 @@ def lemmas(ck):
     ck.lemma("rotation_even_in_quaternion", [], z3.And(*[R1[i][j] == R2[i][j] for i in range(3) for j in range(3)]), tactics=("poly",))
     # trace form used by the contract: for unit quaternions trace(R(q)^T R(p)) = 4 (q.p)^2 - 1
     Rq, Rp = rotm.quat_matrix(*q), rotm.quat_matrix(*p)
+    if ck.tier == "thorough":
+        # triangle inequality: theta = 2 min(alpha, pi - alpha) with alpha the angle between the unit quaternions (trace_is_4d2_minus_1 gives
+        # cos theta = 2 d^2 - 1 = cos 2 alpha); the inequality for min(alpha, pi - alpha) in any real inner product space is proved in Lean/Mathlib
+        ck.external_lemma("triangle_inequality_of_the_angular_distance", "lean lean/Triangle.lean", "lean-4.33.0+mathlib",
+                          note="lean/Triangle.lean: pdist_triangle, pdist_comm, pdist_nonneg, pdist_le_half_pi (thorough tier only, about 70 s)")
     ck.lemma("trace_is_4d2_minus_1", [q[3] * q[3] == 1 - q[0] * q[0] - q[1] * q[1] - q[2] * q[2], p[3] * p[3] == 1 - p[0] * p[0] - p[1] * p[1] - p[2] * p[2]],
              _trace_rel(Rq, Rp) == 4 * d * d - 1, tactics=("poly",))
 
